@@ -294,9 +294,14 @@ class DistinctCountCheck(AbstractCheck):
                 "cannot evaluate count expression %r: %s" % (self._expression, message), self.location_of_rule
             )
         if result not in (True, False):
+            try:
+                result_text = repr(result)
+            except ValueError:
+                # For example a number with more digits than Python is willing to convert to a text.
+                result_text = "<%s>" % type(result).__name__
             raise errors.InterfaceError(
-                "count expression %r must result in %r or %r, but test resulted in: %r"
-                % (self._expression, True, False, result),
+                "count expression %r must result in %r or %r, but test resulted in: %s"
+                % (self._expression, True, False, result_text),
                 self.location_of_rule,
             )
         return result
